@@ -22,4 +22,43 @@ PROPS = {
                      "tolerance kappa*eps*M with kappa = 8+4(ndim+sum orders)+2*terms; errors below it are invisible",
                      "cfitsio, CHOLMOD and OpenBLAS are uninstrumented system libraries"],
     ),
+    "C02": dict(
+        level="exploration",
+        units=[U("c02_deriv", "c02_deriv.cpp", quick=12000, thorough=1500000, names=["deriv_vs_ref"])],
+        rule="C01's table space (1..9 dims, orders 0..5, all three producers; half the tables with strictly increasing knots). Per table 3 points "
+             "from the point palette; per point every derivative bitmask (all subsets for ndim<=3, 5 masks incl. the full one above), the "
+             "value+gradient call in both precisions (refusal required for ndim>=8) and two derivative-order vectors with entries 0..order+1 "
+             "(orders>=2 only on strictly increasing knots). Non-trivial: mixed partial, derivative along an order-0 dimension, derivative order "
+             ">=2 or above the spline order, or a margin/knot coordinate in a differentiated call; distinct = hash(spec, point, request). "
+             "evaluations counts tables.",
+        essential={"deriv_vs_ref": {"mask:mixed": 1.0, "deriv_along_order0": 0.3, "deriv:order>=2": 0.1, "deriv:above_spline_order": 0.1,
+                                    "gradient_checked": 1.0, "coord:high_margin": 0.1, "coord:on_knot": 0.1}},
+        assumptions=["reference derivative recursion D N_{i,m} = m(D N_{i,m-1}/(k_{i+m}-k_i) - D N_{i+1,m-1}/(k_{i+m+1}-k_{i+1})) on the span chosen by the one-sided convention",
+                     "tolerance kappa*eps*M with the cancellation-aware magnitude M"],
+    ),
+    "C03": dict(
+        level="exploration",
+        units=[U("c03_paths", "c03_paths.cpp", quick=20000, thorough=3000000, names=["paths"]),
+               U("c03_paths_notmpl", "c03_paths.cpp", variant="asan_notmpl", quick=6000, thorough=600000, names=["paths"])],
+        rule="tables of 1..9 dims with the order patterns of the property (all 2, all 3, all k, {2,2,2,3,2,2}, {2,2,2,5,2,2}, random mixed), palette "
+             "knots and 5 edge/interior points each; for float and double: member ndsplineeval = evaluator.ndsplineeval = evaluator(x,mask) "
+             "(= table(x) = C ndsplineeval for float), gradients lane by lane (member = evaluator = C), lane 0 = plain value, ndsplineeval_deriv "
+             "member = evaluator<float> = C, centers and flags identical; all compared bit for bit. Built with and without "
+             "PHOTOSPLINE_NO_EVAL_TEMPLATES. Non-trivial: a specialised routine was selected or ndim>=5; distinct = hash(spec, point, mask, orders).",
+        essential={"paths": {"gradient_compared": 1.0, "deriv_compared": 1.0}},
+        assumptions=["which routine get_evaluator selects is recovered from (ndim, orders) by the documented dispatch rule, not observed"],
+    ),
+    "C04": dict(
+        level="exploration",
+        units=[U("c04_lookup", "c04_lookup.cpp", quick=6000, thorough=600000, names=["lookup"])],
+        rule="1..3-d tables whose knot vectors come from the palette extended with huge/tiny magnitudes (2^+-1000 scale, denormal spacing, 1e15 offset), "
+             "repeats and minimum length; 48 coordinate vectors per table from: every knot, both float neighbours, between knots, beyond both ends, "
+             "+-inf, +-0, denormals, random magnitudes (no NaN). Oracle by linear scan: success iff first<x<=last in every dim; index range; bracket "
+             "in the supported range, nearest supported interval outside; call operator 0 on failure and bit-identical to ndsplineeval otherwise. "
+             "Fork per case with watchdog (termination). Non-trivial: coordinate on/adjacent to a knot, outside the range or non-finite, or repeated/"
+             "extreme knots; distinct = hash(spec, point). evaluations counts tables (x48 lookups).",
+        essential={"lookup": {"coord:on_knot": 1.0, "coord:infinite": 1.0, "coord:below_range": 1.0, "coord:above_range": 1.0, "lookup_ok": 3.0,
+                              "lookup_refused": 3.0, "knots:extreme": 0.05}},
+        assumptions=["a watchdog hit counts only when it reproduces twice more"],
+    ),
 }
